@@ -12,7 +12,7 @@ ASSUMPTIONS = c11.ASSUMPTIONS + [
     "order between two different identifiers / funs is not prescribed by the statement: only Equal <=> same fields is asserted",
 ]
 OUTSIDE = c11.OUTSIDE + ["float x big-integer pairs in the quick tier (8 chained f64 multiply-adds; thorough tier only)",
-                         "E2 part: tuples / lists of up to 3 (thorough 4) *integers* only (no nesting, no other element types); the BorrowedTerm copy of cmp "
+                         "E2 part: tuples / lists of up to 4 (thorough 7) *integers* only (no nesting, no other element types); the BorrowedTerm copy of cmp "
                          "is compared natively in the replay only"]
 
 
